@@ -2566,3 +2566,36 @@ def huff_pairs_stream():
     for s in (b'www.example.com', b'\x00\xff\x00\xff', b'custom-key', bytes(range(256)), b'a' * 300):
         ops.append('henc ' + hx(s)); ops.append('hrt ' + hx(s))
     return ops
+
+
+def explicit_config_stream(start_id=52000):
+    """every limit given EXPLICITLY by the application (constructor argument, attribute assignment, setter) -- including
+    values that happen to equal the library's defaults -- and blocks just under and just over each: whatever else configures
+    the library (an environment variable, a module-level default), an explicit value is what must be enforced. Used for the
+    environment-variable variants (check.py: env_variants)."""
+    ops = []
+    d = start_id
+    big = bytes([0x40]) + int_octets(1, 7) + b'k' + int_octets(900, 7) + b'v' * 900          # one entry of 933 octets
+    for limit in (65536, 65535, 4096, 1000, 100, 1 << 20):
+        d += 1
+        ops.append('dnew %d %d' % (d, limit))
+        ops.append('ddec %d 1 %s' % (d, hx(big)))
+        n_over = limit // 933 + 1
+        ops.append('ddec %d 1 %s' % (d, hx(b'\xbe' * max(n_over - 1, 0))))       # just under / at the limit
+        ops.append('ddec %d 0 %s' % (d, hx(b'\xbe' * n_over)))                    # just over
+        ops.append('dlimit %d %d' % (d, 2000)); ops.append('ddec %d 1 %s' % (d, hx(b'\xbe\xbe\xbe')))
+        ops.append('dlimit %d %d' % (d, 65536)); ops.append('ddec %d 1 %s' % (d, hx(b'\xbe' * 71)))
+    for allowed in (4096, 100, 0, 8192, 65536):
+        d += 1
+        ops.append('dnew %d 100000' % d); ops.append('dallow %d %d' % (d, allowed))
+        for sz in (allowed, allowed + 1, 0, 4096, 4097):
+            ops.append('ddec %d 1 %s' % (d, hx(int_octets(sz, 5, 0x20) + b'\x82')))
+    e = d
+    for size in (4096, 100, 0, 8192):
+        e += 1
+        ops.append('enew %d' % e); ops.append('dnew %d 100000' % e); ops.append('dallow %d 8192' % e)
+        ops.append('esize %d %d' % (e, size))
+        for j in range(4):
+            ops.append('eenc %d %d %s' % (e, j % 2, _hs([(b'n%d' % j, b'v' * 40, 0), (b'cookie', b'c%d' % j, 1), (b'n0', b'v' * 40, 0)])))
+            ops.append('pipe %d 1 %d' % (e, e))
+    return ops
